@@ -197,6 +197,9 @@ impl Property for C19 {
                 diffs.push("merged 2>&1 stream is not stdout followed by stderr".to_string());
             }
         }
+        if case.world.merged && !r.seam_ok {
+            diffs.push("the shared 2>&1 sink does not hold stdout followed by stderr".to_string());
+        }
         if !diffs.is_empty() {
             out.violation = Some(Violation {
                 clause: "same script, different world => byte-identical stdout, stderr (up to the echoed path) and exit status".into(),
